@@ -20,7 +20,11 @@ Record sreq := mkSreq { qcl : nat; qep : Z; qph : qphase; qvia : nat }.   (* qep
 (* AGhost g: the g-th "ghost" object is deleted — an UpstreamCluster object that was never admitted because
    its name or one of its server names belongs to another cluster.  For the property it is a removal of
    nothing: every cluster must be unaffected. *)
-Inductive saction := ADelete (cl : nat) | ARemove (cl : nat) (eps : list Z) | ANone | AGhost (g : nat).
+(* [drain]: endpoints (local numbers) of the cluster concerned that are first marked disabled:true by a
+   sync of their own — while requests are in flight on them — before the removal ("drain, then remove");
+   a drained endpoint that is not removed stays in the server list, disabled. *)
+Inductive saction := ADelete (cl : nat) (drain : list Z) | ARemove (cl : nat) (eps : list Z) (drain : list Z)
+                   | ANone | AGhost (g : nat).
 
 Inductive upend := UNone | UCtx | UComplete.
 Record robs := mkRobs {
@@ -30,7 +34,10 @@ Record robs := mkRobs {
   o_endms : Z; o_upms : Z;
 }.
 Record eobs := mkEobs { o_inmap : bool; o_ectx : bool; o_hits : Z }.
-Record clobs := mkClobs { o_resolves : list bool; o_cctx : bool; o_eps : list eobs }.
+(* o_pre: after every sync of the pre-history (and the final all-enabled one), per endpoint: is an
+   EndpointInfo for it in the cluster's endpoint map, and is the context of the EndpointInfo that was
+   in the map BEFORE that sync done now *)
+Record clobs := mkClobs { o_resolves : list bool; o_cctx : bool; o_eps : list eobs; o_pre : list (list (bool * bool)) }.
 
 Definition bound_ms : Z := 2000.
 
@@ -44,13 +51,19 @@ Definition neps_of (cls : list scl) (ci : nat) : Z := match nth_error cls ci wit
 Definition zin (x : Z) (l : list Z) : bool := existsb (Z.eqb x) l.
 
 Definition cluster_deleted (act : saction) (ci : nat) : bool :=
-  match act with ADelete c => Nat.eqb c ci | _ => false end.
+  match act with ADelete c _ => Nat.eqb c ci | _ => false end.
 (* endpoint e (local number) of cluster ci is taken away by the action *)
 Definition ep_removed (act : saction) (ci : nat) (e : Z) : bool :=
   match act with
-  | ADelete c => Nat.eqb c ci
-  | ARemove c eps => Nat.eqb c ci && zin e eps
+  | ADelete c _ => Nat.eqb c ci
+  | ARemove c eps _ => Nat.eqb c ci && zin e eps
   | ANone | AGhost _ => false
+  end.
+(* endpoint e of cluster ci was marked disabled before the removal (and, if not removed, still is) *)
+Definition drained (act : saction) (ci : nat) (e : Z) : bool :=
+  match act with
+  | ADelete c d | ARemove c _ d => Nat.eqb c ci && zin e d
+  | _ => false
   end.
 Definition local_of (cls : list scl) (ci : nat) (g : Z) : Z := g - offset cls ci.
 Definition in_cluster (cls : list scl) (ci : nat) (g : Z) : bool :=
@@ -58,19 +71,20 @@ Definition in_cluster (cls : list scl) (ci : nat) (g : Z) : bool :=
 
 Fixpoint zrange (a : Z) (n : nat) : list Z := match n with O => [] | S k => a :: zrange (a + 1) k end.
 Definition survivors (cls : list scl) (act : saction) (ci : nat) : list Z :=
-  filter (fun e => negb (ep_removed act ci e)) (zrange 0 (Z.to_nat (neps_of cls ci))).
+  filter (fun e => negb (ep_removed act ci e) && negb (drained act ci e)) (zrange 0 (Z.to_nat (neps_of cls ci))).
 
 Definition refused (o : robs) : bool := (o_code o =? 503) && negb (o_upseen o) && negb (o_complete o) && negb (o_hang o).
 Definition completed_on (cls : list scl) (act : saction) (q : sreq) (o : robs) : bool :=
   o_complete o && negb (o_hang o) && in_cluster cls (qcl q) (o_stub o)
   && negb (ep_removed act (qcl q) (local_of cls (qcl q) (o_stub o)))
+  && negb (drained act (qcl q) (local_of cls (qcl q) (o_stub o)))
   && (if 0 <=? qep q then o_stub o =? offset cls (qcl q) + qep q else true).
 
 (* a request that arrives (or picks) after the removal: what the property allows *)
 Definition fresh_ok (cls : list scl) (act : saction) (q : sreq) (o : robs) : bool :=
   if cluster_deleted act (qcl q) then refused o
   else if 0 <=? qep q then
-         (if ep_removed act (qcl q) (qep q) then refused o else completed_on cls act q o)
+         (if ep_removed act (qcl q) (qep q) || drained act (qcl q) (qep q) then refused o else completed_on cls act q o)
        else match survivors cls act (qcl q) with
             | [] => refused o
             | _ => completed_on cls act q o
@@ -95,7 +109,8 @@ Definition not_routed_req (cls : list scl) (act : saction) (q : sreq) (o : robs)
   end.
 Definition not_routed_after (cls : list scl) (act : saction) (q : sreq) (o : robs) : bool :=
   if cluster_deleted act (qcl q) || ((0 <=? qep q) && ep_removed act (qcl q) (qep q)) then refused o
-  else if o_complete o then negb (ep_removed act (qcl q) (local_of cls (qcl q) (o_stub o))) else true.
+  else if o_complete o then negb (ep_removed act (qcl q) (local_of cls (qcl q) (o_stub o)))
+                            && negb (drained act (qcl q) (local_of cls (qcl q) (o_stub o))) else true.
 Definition names_gone (act : saction) (ci : nat) (c : clobs) : bool :=
   if cluster_deleted act ci then forallb negb (o_resolves c) else true.
 
@@ -142,8 +157,39 @@ Definition unaffected_after (cls : list scl) (act : saction) (q : sreq) (o : rob
 Definition unaffected_cl (act : saction) (ci : nat) (c : clobs) : bool :=
   (if cluster_deleted act ci then true else forallb (fun b => b) (o_resolves c) && negb (o_cctx c))
   && forallb (fun p => if ep_removed act ci (fst p) then true
-                       else o_inmap (snd p) && negb (o_ectx (snd p)) && (1 <=? o_hits (snd p)))
+                       else o_inmap (snd p) && negb (o_ectx (snd p))
+                            && (if drained act ci (fst p) then o_hits (snd p) =? 0 else 1 <=? o_hits (snd p)))
              (combine (zrange 0 (List.length (o_eps c))) (o_eps c)).
+
+(* the syncs before the scenario proper: after a sync whose server list lacks E — whatever E's disabled
+   or health state was — E is not in the endpoint map and the context of the EndpointInfo that was
+   there is done (clause 4); an endpoint that stays listed keeps its EndpointInfo and its context (clause 5) *)
+Fixpoint pre_walk (gone : bool) (prev : list Z) (states : list (list Z)) (obs : list (list (bool * bool))) : bool :=
+  match states, obs with
+  | st :: sr, ob :: obr =>
+      (fix row (p s : list Z) (o : list (bool * bool)) : bool :=
+         match s, o with
+         | x :: s', (inmap, prevdone) :: o' =>
+             let was := match p with y :: _ => negb (y =? 0) | [] => false end in
+             (if gone
+              then (if x =? 0 then negb inmap && (if was then prevdone else true) else true)
+              else (if x =? 0 then true else inmap && (if was then negb prevdone else true)))
+             && row (match p with _ :: p' => p' | [] => [] end) s' o'
+         | [], [] => true
+         | _, _ => false
+         end) prev st ob
+      && pre_walk gone st sr obr
+  | [], [] => true
+  | _, _ => false
+  end.
+Definition pre_states (c : scl) : list (list Z) :=
+  map (fun st => firstn (Z.to_nat (s_neps c)) (st ++ repeat 1 (Z.to_nat (s_neps c)))) (s_pre c)
+  ++ [repeat 1 (Z.to_nat (s_neps c))].
+Definition pre_ok (gone : bool) (cls : list scl) (ci : nat) (c : clobs) : bool :=
+  match nth_error cls ci with
+  | Some sc => pre_walk gone [] (pre_states sc) (o_pre c)
+  | None => false
+  end.
 
 Fixpoint all2 {A B} (f : A -> B -> bool) (a : list A) (b : list B) : bool :=
   match a, b with
@@ -159,5 +205,5 @@ Definition scen_ok (cls : list scl) (reqs : list sreq) (act : saction) (after : 
   [ all2 (not_routed_req cls act) reqs ro && all2 (not_routed_after cls act) after ao && alli O (names_gone act) co;
     all2 (inflight_cut_req cls act) reqs ro && alli O (ctx_done_cl act) co;
     all2 (prompt_req cls act) reqs ro;
-    alli O (probing_stops_cl act) co;
-    all2 (unaffected_req cls act) reqs ro && all2 (unaffected_after cls act) after ao && alli O (unaffected_cl act) co ].
+    alli O (probing_stops_cl act) co && alli O (pre_ok true cls) co;
+    all2 (unaffected_req cls act) reqs ro && all2 (unaffected_after cls act) after ao && alli O (unaffected_cl act) co && alli O (pre_ok false cls) co ].
